@@ -519,6 +519,38 @@ def run_matrix(ctx, mat, ref, dts, case, light=False, with_labels=True, use_geno
         box["g"] = g
     ctx.guard(geno, case=dict(case, method="genotype"), sig_prefix="DenseUnphasedGenotyping.genotype:")
 
+    # input-state variants of the projection path: phased input WITH variant metadata that is (a) grouped,
+    # (b) ungrouped but sorted [= p above], (c) ungrouped and stored UNSORTED (markers out of chromosome/position
+    # order).  The projection must match the phased matrix position by position, labels in the input's order.
+    def geno_variants():
+        S = "DenseUnphasedGenotyping.genotype"
+        rev = {k: (v[::-1].copy() if k.startswith("vrnt_") else v) for k, v in lab.items()}
+        for state in ("grouped", "ungrouped-unsorted"):
+            pv = P(mat.copy(), **rev)
+            if state == "grouped":
+                pv.group_vrnt()                       # sorts the phased matrix itself; it is then the input as given
+                require(pv.is_grouped_vrnt(), "harness:group_vrnt", "phased input not grouped")
+            in_mat = pv.mat.copy()
+            in_lab = {f: (None if getattr(pv, f) is None else getattr(pv, f).copy()) for f in lab}
+            g = GT().genotype(pv)
+            ctx.transitions += 1
+            ctx.count(f"genotype-input-state:{state}")
+            tag = f"{S}[{state}]:"
+            require(bool(numpy.array_equal(pv.mat, in_mat)), tag + "input-mutated", "genotype() changed the phased matrix")
+            exp = in_mat.sum(0)
+            require(g.mat.shape == exp.shape and bool(numpy.array_equal(g.mat, exp)), tag + "projection",
+                    lambda: f"projection {g.mat.tolist()} expected {exp.tolist()} (input variant labels {in_lab['vrnt_chrgrp'].tolist()}, {in_lab['vrnt_phypos'].tolist()})")
+            for f in in_lab:
+                require(same(getattr(g, f), in_lab[f]), tag + "label:" + f,
+                        lambda: f"{f}: {getattr(g, f)} expected (input order) {in_lab[f]}")
+            for meth in ("acount", "afreq", "maf", "apoly", "afixed", "tacount"):
+                a, b = getattr(g, meth)(), getattr(pv, meth)()
+                ctx.transitions += 2
+                require(numpy.shape(a) == numpy.shape(b) and bool(numpy.allclose(a, b, rtol=1e-9, atol=1e-12)),
+                        f"phased-vs-unphased.{meth}[{state}]:value", lambda: f"projection {numpy.asarray(a).tolist()} phased {numpy.asarray(b).tolist()}")
+    if with_labels and m >= 2:
+        _guard(ctx, geno_variants, lambda: dict(case, method="genotype-input-states"), "DenseUnphasedGenotyping.genotype:")
+
     def props():
         require(p.ploidy == ploidy and p.nphase == ploidy, "DensePhasedGenotypeMatrix.ploidy:value", lambda: f"{p.ploidy},{p.nphase}")
         require(u.ploidy == ploidy and u.nphase == 0, "DenseGenotypeMatrix.ploidy:value", lambda: f"{u.ploidy},{u.nphase}")
@@ -619,6 +651,8 @@ def finalize(ctx, tier, seed):
     assert ctx.counters.get("B:sizes-with-rounded-reciprocal", 0) >= 20
     assert len(ctx.outcomes) > 200, len(ctx.outcomes)
     assert ctx.counters.get("cross-checked-results", 0) > 0
+    for st in ("grouped", "ungrouped-unsorted"):
+        assert ctx.counters.get(f"genotype-input-state:{st}", 0) > 1000, st
     assert ctx.evaluations == exp + nB * len(SWEEP_PLOIDY)
 
 
